@@ -57,7 +57,7 @@ def plan(tier):
 def histories(draw):
     ops, G = gen.gen_model_ops(draw, FEAT)
     for _ in range(draw(st.integers(8, 24))):
-        k = draw(st.integers(0, 13))
+        k = draw(st.integers(0, 14))
         sids = gen.all_ctx_ids(G) + gen.item_sids(G, 2)
         if not sids:
             break
@@ -117,6 +117,22 @@ def histories(draw):
                         op = ["del_space", list(sub.path)]
                         if gen.apply_edit_to_picture(G, op, allow_dangling=True):
                             ops.append(op)
+        elif k == 14:
+            # an instance is captured; then the base gets a relative-mode reference to an outside object (accepted
+            # while no static sub exists), after which no instance can be created: the old handle must stay dead
+            ps = [s_ for s_ in G.all_spaces() if s_.formula is not None and not G.subs(s_)]
+            outs = [o for o in G.all_spaces() if ps and o.path[0] != ps[0].path[0]]
+            if ps and outs:
+                s_ = draw(st.sampled_from(ps))
+                o = draw(st.sampled_from([o for o in G.all_spaces() if o.path[:len(s_.path)] != s_.path
+                                          and s_.path[:len(o.path)] != o.path] or outs))
+                sid = gen._jsid(s_.path + ((1,) * len(s_.formula["params"]),))
+                ops.append(["capture", sid, None])
+                for n in G.cells_names(s_)[:1]:
+                    ops.append(["capture", sid, n])
+                ops.append(["set_ref_raw_obj", list(s_.path), "bad0", list(o.path), "relative"])
+                ops.append(["capture", sid, None])          # (re-creation is attempted and fails)
+                ops.append(["set_ref", [], "zz_pad", ["v", draw(st.integers(0, 9))], None])
         elif k == 6:
             items = gen.item_sids(G, 2)
             if items:
@@ -237,7 +253,15 @@ def run_case(case):
                             "volatile": not static or (isinstance(o, Cells) and o._is_derived())})
             continue
         before = {id(h["obj"]): status(h["obj"]) for h in handles}
-        res = live.apply(op)
+        if k == "set_ref_raw_obj":
+            try:
+                live.space(op[1]).set_ref(op[2], live.space(op[3]), op[4])
+                edits.append((["set_ref", op[1], op[2], ["o", op[3]], op[4]], "ok"))
+            except Exception:
+                pass
+            res = ("skip", None)
+        else:
+            res = live.apply(op)
         if k in EDIT_OPS or k in VALUE_EDIT_OPS or k in ("del_item", "clear_items"):
             edits.append((op, res[0]))
         if res[0] == "ok" and k in EDIT_OPS:
